@@ -140,6 +140,10 @@ class Shapes:
         m = re.match(r'^(?:std::)?complex<(.*)>$', s)
         if m:
             return ('struct', 'std::complex', (('re', ('real',)), ('im', ('real',))))
+        from . import containers
+        cs = containers.shape_of(self, s)
+        if cs is not None:
+            return cs
         # records of the TU (template arguments canonicalised as clang prints specialisations)
         m = re.match(r'^([\w:]+)<(.*)>$', s)
         if m:
@@ -342,6 +346,12 @@ def default_value(shape):
     if k == 'bool':
         return z3.BoolVal(False)
     if k == 'struct':
+        if shape[1] == 'std::list':
+            from . import containers
+            return containers.empty_list(shape)
+        if shape[1] == 'std::unordered_map':
+            from . import containers
+            return containers.empty_map(shape)
         return SVal(shape[1], {fn: default_value(fs) for fn, fs in shape[2]})
     if k == 'vec':
         return VecVal(z3.IntVal(0), const_lifted(shape[1], default_value(shape[1]), 1), shape[1])
